@@ -306,7 +306,9 @@ fn replay(prop: &str, case: &Value, ctx: &mut Ctx) {
       let t: term::Term = serde_json::from_value(case["term"].clone()).expect("term");
       let pa: Vec<pairs::Pre> = serde_json::from_value(case["left_prefix"].clone()).unwrap_or_default();
       let pb: Vec<pairs::Pre> = serde_json::from_value(case["right_prefix"].clone()).unwrap_or_default();
-      if case["kind"] == "neighbours" {
+      if case["kind"] == "staged" {
+        pairs::c14_staged(ctx, &t);
+      } else if case["kind"] == "neighbours" {
         let e: term::Term = serde_json::from_value(case["edited"].clone()).expect("edited");
         pairs::c14_neighbours(ctx, &t, &e, case["edit"].as_str().unwrap_or(""), &[pa, pb]);
       } else {
